@@ -121,6 +121,9 @@ theorem mem_enumFrom {l : List α} {i0 i : Nat} {x : α} :
         have : i - i0 = (i - (i0 + 1)) + 1 := by omega
         rw [this] at h2; simpa using h2
 
+theorem mem_enumFrom_zero {l : List α} {i : Nat} {x : α} : (i, x) ∈ enumFrom 0 l ↔ l[i]? = some x := by
+  simp [mem_enumFrom]
+
 theorem pairwise_enumFrom (l : List α) (i0 : Nat) :
     (enumFrom i0 l).Pairwise (fun a b => a.1 < b.1) := by
   induction l generalizing i0 with
